@@ -4,6 +4,9 @@
 //   kind 1: req_sketch<double> fed integer values (plus NaN updates / NaN split points)
 //   kind 2: req_sketch<std::string, std::greater<std::string>>: item v is stored as enc(-v) with enc an
 //           order-preserving fixed-width encoding, so that greater<string> on the stored items is < on v.
+//   kind 4: req_sketch<int64_t, DirCmp> with a STATEFUL comparator instance DirCmp(true) (descending) passed at construction; a
+//           default-constructed DirCmp() orders the other way; item v is stored as -v, so that the stored comparator's order on
+//           the stored items is < on v (code that uses C() instead of the stored instance orders the wrong way)
 // Only the public API is used (no private members are read).
 #include "common.hpp"
 #include "hooksrc.hpp"
@@ -36,9 +39,16 @@ struct K2 {
   }
 };
 
+struct DirCmp { bool desc; DirCmp(bool d = false): desc(d) {} bool operator()(int64_t a, int64_t b) const { return desc ? b < a : a < b; } };
+struct KD {
+  typedef req_sketch<int64_t, DirCmp> sk_t; typedef int64_t item_t;
+  static item_t enc(I v) { return -(int64_t)v; }
+  static I dec(const item_t& x) { return -(I)x; }
+};
+
 struct Reg {
   int kind;
-  std::unique_ptr<K0::sk_t> s0; std::unique_ptr<K1::sk_t> s1; std::unique_ptr<K2::sk_t> s2;
+  std::unique_ptr<K0::sk_t> s0; std::unique_ptr<K1::sk_t> s1; std::unique_ptr<K2::sk_t> s2; std::unique_ptr<KD::sk_t> s4;
 };
 static std::map<long, Reg> regs;
 
@@ -51,6 +61,7 @@ template<typename K> struct Sel;
 template<> struct Sel<K0> { static std::unique_ptr<K0::sk_t>& p(Reg& r) { return r.s0; } };
 template<> struct Sel<K1> { static std::unique_ptr<K1::sk_t>& p(Reg& r) { return r.s1; } };
 template<> struct Sel<K2> { static std::unique_ptr<K2::sk_t>& p(Reg& r) { return r.s2; } };
+template<> struct Sel<KD> { static std::unique_ptr<KD::sk_t>& p(Reg& r) { return r.s4; } };
 
 static I numer(double rank, uint64_t n) { return (I)std::llround(rank * (double)n); }
 
@@ -71,6 +82,13 @@ template<typename K> static void run_op(int op, Reg& reg, const Line& t, Out& o)
     if (steps != nret) { o.R((I)steps); break; }
     std::vector<std::pair<I, I>> it;
     for (auto i = s.begin(); i != s.end(); ++i) { auto p = *i; it.push_back(std::make_pair(K::dec(p.first), (I)p.second)); }
+    // every way of walking the sketch must expose the same entries: post-increment, *it++, range-for;
+    // on disagreement the deviating walk is reported instead, and judged like any other listing
+    { std::vector<std::pair<I, I>> w1, w2, w3;
+      for (auto i = s.begin(); i != s.end(); i++) { auto p = *i; w1.push_back(std::make_pair(K::dec(p.first), (I)p.second)); }
+      for (auto i = s.begin(); i != s.end(); ) { auto p = *i++; w2.push_back(std::make_pair(K::dec(p.first), (I)p.second)); }
+      for (const auto& p : s) w3.push_back(std::make_pair(K::dec(p.first), (I)p.second));
+      if (w1 != it) it = w1; else if (w2 != it) it = w2; else if (w3 != it) it = w3; }
     std::sort(it.begin(), it.end());
     o.R((I)it.size());
     for (auto& p : it) { o.R(p.first); o.R(p.second); }
@@ -126,7 +144,10 @@ template<typename K> static void merge_op(Reg& a, Reg& b, bool rvalue) {
   if (rvalue) x.merge(std::move(y)); else x.merge(y);
 }
 
-static bool is_hra(Reg& g) { return g.kind == 0 ? g.s0->is_HRA() : g.kind == 1 ? g.s1->is_HRA() : g.s2->is_HRA(); }
+static bool is_hra(Reg& g) { return g.kind == 0 ? g.s0->is_HRA() : g.kind == 1 ? g.s1->is_HRA() : g.kind == 2 ? g.s2->is_HRA() : g.s4->is_HRA(); }
+static void merge_any(Reg& a, Reg& b, bool rv) {
+  if (a.kind == 0) merge_op<K0>(a, b, rv); else if (a.kind == 1) merge_op<K1>(a, b, rv); else if (a.kind == 2) merge_op<K2>(a, b, rv); else merge_op<KD>(a, b, rv);
+}
 
 static void handler(const Line& t, Out& o) {
   vh::install_source(o);
@@ -140,6 +161,7 @@ static void handler(const Line& t, Out& o) {
     if (kind == 0) g.s0.reset(new K0::sk_t((uint16_t)k, hra));
     else if (kind == 1) g.s1.reset(new K1::sk_t((uint16_t)k, hra));
     else if (kind == 2) g.s2.reset(new K2::sk_t((uint16_t)k, hra));
+    else if (kind == 4) g.s4.reset(new KD::sk_t((uint16_t)k, hra, DirCmp(true)));
     else throw std::invalid_argument("kind");
     regs[(long)t.at(1)] = std::move(g);
     o.R(1); break; }
@@ -153,19 +175,20 @@ static void handler(const Line& t, Out& o) {
     if (a.kind != b.kind) throw std::invalid_argument("kinds differ");
     if (is_hra(a) != is_hra(b)) { // the sketch must refuse by itself; nothing may have changed
       bool threw = false;
-      try { if (a.kind == 0) merge_op<K0>(a, b, false); else if (a.kind == 1) merge_op<K1>(a, b, false); else merge_op<K2>(a, b, false); }
+      try { merge_any(a, b, false); }
       catch (const std::exception&) { threw = true; }
       if (threw) throw std::invalid_argument("refused");
       o.R(2); break; // a mixed-mode merge was accepted
     }
-    if (a.kind == 0) merge_op<K0>(a, b, rv); else if (a.kind == 1) merge_op<K1>(a, b, rv); else merge_op<K2>(a, b, rv);
+    merge_any(a, b, rv);
     if (rv) regs.erase((long)t.at(2));
     o.R(1); break; }
   case 9: { // CDF with a NaN split point at position t[2] (double sketches)
     Reg& g = get(t.at(1));
     if (g.kind != 1) { // other kinds: nothing to ask; behave as the model (level 0 sorted, then refused)
       if (g.kind == 0) { if (!g.s0->is_empty()) g.s0->get_rank(0, true); }
-      else { if (!g.s2->is_empty()) g.s2->get_rank(K2::enc(0), true); }
+      else if (g.kind == 2) { if (!g.s2->is_empty()) g.s2->get_rank(K2::enc(0), true); }
+      else { if (!g.s4->is_empty()) g.s4->get_rank(0, true); }
       throw std::invalid_argument("no NaN for this kind");
     }
     std::vector<double> sp; for (size_t i = 3; i < t.size(); ++i) sp.push_back(K1::enc(t[i]));
@@ -177,7 +200,8 @@ static void handler(const Line& t, Out& o) {
     Reg& b = get(t.at(2)); Reg g; g.kind = b.kind;
     if (b.kind == 0) g.s0.reset(new K0::sk_t(*b.s0));
     else if (b.kind == 1) g.s1.reset(new K1::sk_t(*b.s1));
-    else g.s2.reset(new K2::sk_t(*b.s2));
+    else if (b.kind == 2) g.s2.reset(new K2::sk_t(*b.s2));
+    else g.s4.reset(new KD::sk_t(*b.s4));
     regs[(long)t.at(1)] = std::move(g);
     o.R(1); break; }
   case 20: { // the machine's binary32 arithmetic on the section-size schedule (checks the model's float32 arithmetic;
@@ -202,7 +226,7 @@ static void handler(const Line& t, Out& o) {
   case 97: o.R(1); o.F((I)vh::source().scripted.size()); break;
   default: {
     Reg& g = get(t.at(1));
-    if (g.kind == 0) run_op<K0>(op, g, t, o); else if (g.kind == 1) run_op<K1>(op, g, t, o); else run_op<K2>(op, g, t, o);
+    if (g.kind == 0) run_op<K0>(op, g, t, o); else if (g.kind == 1) run_op<K1>(op, g, t, o); else if (g.kind == 2) run_op<K2>(op, g, t, o); else run_op<KD>(op, g, t, o);
   }
   }
 }
